@@ -130,6 +130,9 @@ pub mod succinct;
 pub mod statistics;
 pub mod system;
 pub mod thread;
+#[cfg(feature = "zipora_verif")]
+#[doc(hidden)]
+pub mod verif_hooks;
 
 // Re-export core types
 pub use containers::{
